@@ -27,13 +27,18 @@ JOBS.append(Job('url.roundtrip.n3', 'C19/strcodec.cpp', 'h_url_roundtrip', 'B', 
 JOBS.append(Job('url.decode_any.n3', 'C19/strcodec.cpp', 'h_url_decode_any', 'B', defs={'N': 3}, reach=['url_decode_any'], timeout=900, clause='URL decoder on arbitrary 4 bytes: result or C++ exception'))
 JOBS.append(Job('hex.decode_any.n2', 'C19/strcodec.cpp', 'h_hex_decode_any', 'B', defs={'N': 2}, reach=['hex_decode_any'], timeout=900, clause='hex string decoder (fixed buffer) on arbitrary <=4 bytes, capacity symbolic'))
 JOBS.append(Job('hex.vector_any.n2', 'C19/strcodec.cpp', 'h_hex_vector_any', 'B', defs={'N': 2}, reach=['hex_vector_any'], timeout=900, clause='hex string decoder (vector, with/without delimiter) on arbitrary 3 bytes'))
+# ---- MD5 block feeding / padding (lengths and split points symbolic, content concrete)
+JOBS.append(Job('md5.split.len52', 'C19/md5.cpp', 'h_md5_split', 'B', defs={'LBASE': 52, 'LSPAN': 7}, reach=['md5_split'], timeout=900, clause='MD5: lengths 52..59 x 6 split points vs independent RFC 1321 implementation'))
+JOBS.append(Job('md5.split.len0', 'C19/md5.cpp', 'h_md5_split', 'B', defs={'LBASE': 0, 'LSPAN': 20}, reach=['md5_split'], timeout=3000, tier='thorough', clause='MD5: lengths 0..20'))
+JOBS.append(Job('md5.split.len60', 'C19/md5.cpp', 'h_md5_split', 'B', defs={'LBASE': 60, 'LSPAN': 10}, reach=['md5_split'], timeout=3000, tier='thorough', clause='MD5: lengths 60..70'))
+JOBS.append(Job('md5.split.len116', 'C19/md5.cpp', 'h_md5_split', 'B', defs={'LBASE': 116, 'LSPAN': 8}, reach=['md5_split'], timeout=3000, tier='thorough', clause='MD5: lengths 116..124 (three blocks)'))
 META = dict(
     explanation='Bounded solver verdicts over the real codec sources (util/base64.cpp, scalable_integer.cpp, serializer.cpp, crc.cpp, checksum.cpp, string.cpp, http/url.cpp) compiled to LLVM IR from the working tree. '
                 'Raw-buffer kernels are translated to C (engine/ir2c.py) and decided monolithically by CBMC (cadical): inputs, lengths, capacities and seeds are symbolic, outputs are compared with independent arithmetic references '
                 '(RFC 4648 by arithmetic, bitwise CRC definitions, RFC 1071) and guard bytes around every output detect writes beyond the capacity; table indexing is covered by CBMC bounds checks. '
                 'std::string / std::vector overloads and the URL / hex-string codecs are executed path-wise by engine/symir.py with z3.',
     bounds='base64: raw length 1..6, decoder input length 0..5 and 8 (all 256 byte values), capacity symbolic; scalable integer: all 2^64 values, capacity 0..12, parser on arbitrary 12 bytes; serializer: one append/fetch of any kind from any position <= 16 (inductive), truncated fetch with <= 9 input bytes; '
-           'CRC/checksums: data <= 4 bytes (6 thorough), every seed; URL codec: strings of length 1..2 (3 thorough), decoder on arbitrary 4 bytes; hex decoder on arbitrary <= 4 bytes',
-    outside='MD5 and AES-128 equivalence (monolithic miters did not finish in the design-phase probes; not claimed in this revision); RawDataToHexStr (iostream formatting flags are not modelled); inputs longer than the bounds; Serializer over std::vector (resize path)',
+           'CRC/checksums: data <= 4 bytes (6 thorough), every seed; URL codec: strings of length 1..2 (3 thorough), decoder on arbitrary 4 bytes; hex decoder on arbitrary <= 4 bytes; MD5: message lengths 52..59 (0..20, 60..70, 116..124 thorough) x 6 split points, fixed content',
+    outside='equivalence of the MD5 compression function and of AES-128 on symbolic data (monolithic miters did not finish in the design-phase probes; only MD5 buffering/padding/length encoding is claimed, for concrete content with symbolic length and split); RawDataToHexStr (iostream formatting flags are not modelled); inputs longer than the bounds; Serializer over std::vector (resize path)',
     assumptions=['operator new never fails', 'isprint() follows the C locale', 'forming (not dereferencing) a one-before-begin pointer in appendPOD/fetchPOD reverse loops is not reported (standard-level UB no sanitizer confirms)'],
     trusted_base=['clang++-14 -O1 IR', 'engine/ir2c.py + cbmc 6.11 (cadical)', 'engine/symir.py + z3 and its std::string/vector/ctype models', 'engine/vp_models.c'])
